@@ -42,7 +42,9 @@ class AdmittanceMixin(Quantity, ImmittanceMixin):
         x = expr(x)
         if x.is_constant:
             from .impedance import impedance
-            return impedance(x.expr / self.expr)
+            ret = impedance(x.expr / self.expr)
+            ret.units = x.units / self.units
+            return ret
         return super(AdmittanceMixin, self).__rtruediv__(x)
 
     def cpt(self):
